@@ -71,7 +71,7 @@ def generate(seed, tier):
         elif c < 0.8:   # very long
             nd = r.choice([2040, 2047, 2048, 2049, 2100, 3000])
             d = str(r.randint(1, 9)) + "".join(r.choice("0123456789") for _ in range(nd - 1))
-            yield req(d, r.choice([0, nd - 1, nd + 300, nd - 300, r.randint(0, nd)]))
+            yield req(d, r.choice([0, nd - 1, nd + 300, nd - 300, r.randint(0, nd), nd - 1 - r.randint(295, 308), nd - 1 + r.randint(300, 321)]))
         elif c < 0.85:  # leading / trailing zeros
             d = "0" * r.randint(0, 12) + str(r.getrandbits(r.randint(1, 64))) + "0" * r.randint(0, 30)
             yield req(d, r.randint(-40, 60))
@@ -128,4 +128,8 @@ def classify(rq, impl):
 
 
 def finding_class(rq, impl, model, why):
+    digits, scale = parts(rq)
+    sig = digits.lstrip("0")
+    if impl.startswith("SAN:asan:stack-buffer-overflow:value.c:to_double") and len(sig.rstrip("0")) > 2000 and len(sig) - 1 - scale > 280:
+        return "to_double bignum array overflow: > 2000 significant digits with most significant place above 280"
     return None
